@@ -758,6 +758,10 @@ func marshalInner(pj *simdjson.ParsedJson, docs []*ref.Node) (what string) {
 			if s := cmp(out, err, want, "Iter.MarshalJSON via "+routeNames[route], p); s != "" {
 				return s
 			}
+			cb := *it
+			if s := bufferVariant("Iter.MarshalJSON", out, cb.MarshalJSONBuffer); s != "" {
+				return s + " at " + p.String()
+			}
 			switch want.K {
 			case ref.KArr:
 				arr, err := it.Array(nil)
@@ -767,6 +771,11 @@ func marshalInner(pj *simdjson.ParsedJson, docs []*ref.Node) (what string) {
 				out, err := arr.MarshalJSON()
 				if s := cmp(out, err, want, "Array.MarshalJSON", p); s != "" {
 					return s
+				}
+				if arr2, err := it.Array(nil); err == nil {
+					if s := bufferVariant("Array.MarshalJSON", out, arr2.MarshalJSONBuffer); s != "" {
+						return s + " at " + p.String()
+					}
 				}
 			case ref.KObj:
 				if !uniqueKeys(want) {
@@ -789,6 +798,9 @@ func marshalInner(pj *simdjson.ParsedJson, docs []*ref.Node) (what string) {
 				// Elements is passed by value and MarshalJSON is a read: a second call gives the
 				// same bytes and the member iterators are still usable afterwards
 				out2, err2 := els.MarshalJSON()
+				if s := bufferVariant("Elements.MarshalJSON", out, els.MarshalJSONBuffer); s != "" {
+					return s + " at " + p.String()
+				}
 				if err2 != nil || string(out2) != string(out) {
 					return fmt.Sprintf("Elements.MarshalJSON at %s called a second time on the same Elements: %s (%v), first call gave %s", p, clip(string(out2)), err2, clip(string(out)))
 				}
